@@ -1234,4 +1234,51 @@ theorem bms_write_read_nonvacuous :
     exact hhead.symm
   rw [htempo, this]
 
+/-! ### what `RowsOK` asks that is not an assumption about the chart -/
+
+/-- every position the writer computes is normalised: 4/4, beat in [0, 4), measure ≥ 0 -/
+theorem posFn_normal (cs : List BcSnap) (hwf : wfChanges cs = true) (hs : sortedSnaps cs = true)
+    (h0 : firstAtZero cs = true) (hgc : gridCompatible (grid defaultMaxDiv) cs = true) (hm : metronomeOk cs = true)
+    (hm4 : ∀ c ∈ cs, c.met = 4) (t : Rat) (ht : 0 ≤ t) :
+    (posFn cs t).met = some 4 ∧ 0 ≤ (posFn cs t).beat ∧ (posFn cs t).beat < 4 ∧ 0 ≤ (posFn cs t).measure := by
+  have hg : GridOK defaultGrid := gridOK_grid (by decide)
+  have hne : cs ≠ [] := by intro e; subst e; simp [firstAtZero] at h0
+  have hmet := posFn_met cs hwf hs hgc hm hm4 t ht hne
+  cases cs with
+  | nil => exact absurd rfl hne
+  | cons c rest =>
+    obtain ⟨S, hS, hb0, hb4, htot⟩ := snapAtAux_total_ge hg 4 rest 0 c t hwf hs hm4 ht
+    have hFt : posFn (c :: rest) t = S := by simp [posFn, hS, Except.toOption]
+    rw [hFt] at hmet ⊢
+    refine ⟨hmet, hb0, hb4, ?_⟩
+    simp only [firstAtZero, Bool.and_eq_true, decide_eq_true_eq] at h0
+    simp only [snapTotal, h0.1, h0.2] at htot
+    have : (-1 : Rat) < ((S.measure : Int) : Rat) := by
+      have : (0 : Rat) ≤ (S.measure : Rat) * 4 + S.beat := by simpa using htot
+      linarith
+    have : (-1 : Int) < S.measure := by exact_mod_cast this
+    omega
+
+/-- **`RowsOK.norm` and the lower bound in `RowsOK.meas` hold for every chart in the domain**: they are not
+assumptions of `bms_write_read`; what `RowsOK` really asks of the chart is `measure < 1000` (¬D36), the
+two-character channels and ids, and `nocoll` (¬D35). -/
+theorem rows_normalised (cs : List BcSnap) (hwf : wfChanges cs = true) (hs : sortedSnaps cs = true)
+    (h0 : firstAtZero cs = true) (hgc : gridCompatible (grid defaultMaxDiv) cs = true) (hm : metronomeOk cs = true)
+    (lay : Layout) (dflt : Bytes) (c : WChart) (hok : BmsOk cs lay c) :
+    ∀ r ∈ bmsNoteRows cs lay dflt c ++ bmsTempoRows cs lay c,
+      (r.snap.met = some 4 ∧ 0 ≤ r.snap.beat ∧ r.snap.beat < 4) ∧ 0 ≤ r.snap.measure := by
+  have N := fun t ht => posFn_normal cs hwf hs h0 hgc hm hok.met4 t ht
+  intro r hr
+  simp only [bmsNoteRows, bmsTempoRows, List.mem_append, List.mem_map] at hr
+  rcases hr with ((⟨h, hh, rfl⟩ | ⟨h, hh, rfl⟩) | ⟨h, hh, rfl⟩) | ⟨p, hpm, rfl⟩
+  · have := N _ (hok.times.1 h hh); exact ⟨⟨this.1, this.2.1, this.2.2.1⟩, this.2.2.2⟩
+  · have := N _ (hok.times.2.1 h hh).1; exact ⟨⟨this.1, this.2.1, this.2.2.1⟩, this.2.2.2⟩
+  · have := N _ (hok.times.2.1 h hh).2; exact ⟨⟨this.1, this.2.1, this.2.2.1⟩, this.2.2.2⟩
+  · have hp2 : p.2 ∈ c.bpms.map (fun b => posFn cs b.offset) := by
+      have := List.mem_map_of_mem (f := (·.2)) hpm
+      rwa [zipIdxFrom_map_snd] at this
+    obtain ⟨b, hb, e⟩ := List.mem_map.mp hp2
+    simp only [← e]
+    have := N _ (hok.times.2.2 b hb); exact ⟨⟨this.1, this.2.1, this.2.2.1⟩, this.2.2.2⟩
+
 end Reamber.BMS
